@@ -141,6 +141,13 @@ def monitor_timing(case):
                     s_rsp[w] += 1
                 else:
                     f_rsp[w] += 1
+            elif e['e'] == 'flush':
+                # the instruction every unfinished wavefront was executing is rolled back
+                # (an s_barrier it waited at will be executed again)
+                for w in range(mapped):
+                    if not ended[w]:
+                        arrived[w] = passed[w]
+                        kind[w] = None
             elif e['e'] == 'mfin':
                 w = e.get('w', 0)
                 if e['k'] == 's':
@@ -196,6 +203,12 @@ def monitor_emu(case):
             ended.add(w)
     if len(ended) != case['nwf'] * case['nwg']:
         return 'emulator: %d of %d wavefronts ended' % (len(ended), case['nwf'] * case['nwg'])
+    rep = collections.Counter(e.get('done') or [])
+    for g in range(case['nwg']):
+        if rep.get(g, 0) != 1:
+            return 'emulator: completion of work-group %d reported %d times' % (g, rep.get(g, 0))
+    if set(rep) - set(range(case['nwg'])):
+        return 'emulator: completion reported for an unknown work-group'
     return None
 
 
@@ -213,7 +226,7 @@ def monitor(case):
 
 
 def strip(case):
-    return {k: case[k] for k in ('name', 'nwf', 'nwg', 'pen', 'gpu', 'refuse', 'prog') if k in case}
+    return {k: case[k] for k in ('name', 'nwf', 'nwg', 'pen', 'gpu', 'refuse', 'flush', 'prog') if k in case}
 
 
 def run_impl(binary, cases=None, seed=1, n=40, timeout=4000):
@@ -325,6 +338,9 @@ def main(argv):
         'cycles_simulated': sum(c['timing']['cycles'] for c in cases if c['timing']),
         'cases_with_full_barrier_buffer': full,
         'cases_on_mi300a_cu': sum(1 for c in cases if c.get('gpu') == 'mi300a'),
+        'pipeline_flushes': sum(c['timing'].get('flushes', 0) for c in cases if c['timing']),
+        'emu_completion_batches_of_2_or_more': sum(1 for c in cases if c['emu'] for b in (c['emu'].get('batches') or []) if b >= 2),
+        'emu_completion_sends_refused': sum(c['emu'].get('refused', 0) for c in cases if c['emu']),
         'completion_sends_refused': sum(c['timing'].get('refused', 0) for c in cases if c['timing']),
         'cases_with_early_exit': sum(1 for c in cases if any(s['op'] == 'endpgm' and s.get('g') for s in c['prog'])),
         'model_mismatches': len(mism) + len(emism), 'monitor_failures': len(bad),
